@@ -10,11 +10,12 @@ def payload_for(pool, i, kinds=("cmd", "oth", "cmd", "txt", "cmd"), variant=1, c
 
 
 def run_atlas_cli(b, sc, workdir, flags=(), key_by="env", start=None, end=None, out_name="out.log", extra_args=(), prepare=None,
-                  timeout=180, strace=False, encrypt=False, extra_env=None):
+                  timeout=180, strace=False, encrypt=False, extra_env=None, tmp_missing=False):
     """One real `anonymongo redact --atlasProjectId ... --atlasClusterName ...` run against a fresh fake endpoint."""
     d = tempfile.mkdtemp(prefix="atl-", dir=workdir)
     tmp = os.path.join(d, "tmp")
-    os.mkdir(tmp)
+    if not tmp_missing:
+        os.mkdir(tmp)
     f = fa.FakeAtlas(sc, tmpdir=tmp)
     try:
         # the temporary directory as the environment may spell it: plain, with a trailing slash (the macOS default), a doubled slash, a '.' segment
@@ -66,7 +67,7 @@ def run_atlas_cli(b, sc, workdir, flags=(), key_by="env", start=None, end=None, 
                 if suf.isdigit() and os.path.isfile(pth):
                     outs[int(suf)] = open(pth, "rb").read()
         tmp_left = []
-        for n in sorted(os.listdir(tmp)):
+        for n in (sorted(os.listdir(tmp)) if os.path.isdir(tmp) else []):
             pth = os.path.join(tmp, n)
             tmp_left.append((n, os.path.getsize(pth) if os.path.isfile(pth) else -1))
         other_files = {}
@@ -83,11 +84,12 @@ def run_atlas_cli(b, sc, workdir, flags=(), key_by="env", start=None, end=None, 
         shutil.rmtree(d, ignore_errors=True)
 
 
-def run_atlas_lib(b, sc, workdir, start=1700000000, end=1700600000, delete=True, timeout_ms=20000):
+def run_atlas_lib(b, sc, workdir, start=1700000000, end=1700600000, delete=True, timeout_ms=20000, tmp_missing=False):
     """DownloadClusterLogs (+ DeleteClusterLogs) in-process against the fake endpoint over plain HTTP."""
     d = tempfile.mkdtemp(prefix="atlib-", dir=workdir)
     tmp = os.path.join(d, "tmp")
-    os.mkdir(tmp)
+    if not tmp_missing:
+        os.mkdir(tmp)
     f = fa.FakeAtlas(sc, tmpdir=tmp, tls=False)
     try:
         a = common.run_inproc(b, [{"op": "atlas_download", "args": {"base_url": f.base_url(), "public": sc.public, "private": sc.private,
@@ -96,7 +98,7 @@ def run_atlas_lib(b, sc, workdir, start=1700000000, end=1700600000, delete=True,
         res = a.get("result") or {}
         res["panic"] = a.get("panic")
         res["requests"] = list(f.log)
-        res["tmp_left"] = sorted(os.listdir(tmp))
+        res["tmp_left"] = sorted(os.listdir(tmp)) if os.path.isdir(tmp) else []
         return res
     finally:
         f.close()
